@@ -327,7 +327,9 @@ pub fn write_line_of_code_with_optional_path_and_line_number(
         config,
     );
 
-    if !line.is_empty() || !file_with_line_number.is_empty() {
+    // A hunk header of which nothing is to be shown is not written. A line of grep output (the
+    // only caller passing style sections) is, also when it is empty and has no line number.
+    if !line.is_empty() || !file_with_line_number.is_empty() || style_sections.is_some() {
         write_to_output_buffer(
             &file_with_line_number,
             file_path_separator,
